@@ -154,7 +154,9 @@ func (d *duplexHTTPCall) Read(data []byte) (int, error) {
 		return 0, fmt.Errorf("nil response from %v", d.request.URL)
 	}
 	n, err := d.response.Body.Read(data)
-	return n, wrapIfRSTError(err)
+	// A body read that fails because the call's context ended must surface as
+	// canceled or deadline_exceeded, whatever layer reports it.
+	return n, wrapIfContextError(wrapIfRSTError(err))
 }
 
 func (d *duplexHTTPCall) CloseRead() error {
